@@ -192,11 +192,11 @@ impl GcMap {
     }
 
     pub fn insert(&self, key: Primitive, value: Primitive) -> Result<Option<Primitive>> {
-        let mut view = self.0.borrow_mut();
-        Ok(view.insert(
-            key.move_out_of_heap_primitive()?,
-            value.move_out_of_heap_primitive()?,
-        ))
+        // a key or value that is a view into this very map (`m[m[1]] = m[2]`) reads the map: resolve both before borrowing it mutably
+        let key = key.move_out_of_heap_primitive()?;
+        let value = value.move_out_of_heap_primitive()?;
+
+        Ok(self.0.borrow_mut().insert(key, value))
     }
 
     pub fn get(&self, key: Primitive) -> Result<Primitive> {
@@ -239,10 +239,9 @@ impl GcMap {
     }
 
     pub fn remove(&self, key: Primitive) -> Result<Option<Primitive>> {
-        Ok(self
-            .0
-            .borrow_mut()
-            .remove(&key.move_out_of_heap_primitive()?))
+        let key = key.move_out_of_heap_primitive()?;
+
+        Ok(self.0.borrow_mut().remove(&key))
     }
 }
 
